@@ -440,23 +440,40 @@ theorem ornSearch_fresh (used : Map Bytes Bool) (idx : Nat) (n : Bytes)
     · exact ih h
     · rename_i hu; simp at h; subst h; simpa using hu
 
-/-- the naming loop only ever returns a name that is not in use -/
-theorem nameLoop_fresh (used : Map Bytes Bool) (base : Bytes) (fuel : Nat) (g : Bytes) (alt : Nat) (n : Bytes)
-    (h : nameLoop used base fuel g alt = some n) : Simple.nameUsed used n = false := by
-  induction fuel generalizing g alt with
+theorem ornSearch_range (used : Map Bytes Bool) (idx : Nat) (n : Bytes)
+    (h : ornSearch used idx = some n) : ∃ i, i ≤ idx ∧ n = ornName i := by
+  induction idx with
+  | zero =>
+    unfold ornSearch at h
+    split at h
+    · simp at h
+    · simp at h; exact ⟨0, Nat.le_refl _, h.symm⟩
+  | succ k ih =>
+    unfold ornSearch at h
+    split at h
+    · obtain ⟨i, hi, e⟩ := ih h; exact ⟨i, by omega, e⟩
+    · simp at h; exact ⟨k + 1, Nat.le_refl _, h.symm⟩
+
+/-- the naming loop only ever returns a name that is not in use, and that is valid or generic -/
+theorem nameLoop_fresh (used : Map Bytes Bool) (fuel : Nat) (base g : Bytes) (alt : Nat) (n : Bytes)
+    (h : nameLoop used fuel base g alt = some n) :
+    Simple.nameUsed used n = false ∧ (isValidName n = true ∨ ∃ i, i ≤ used.size ∧ n = ornName i) := by
+  induction fuel generalizing base g alt with
   | zero => simp [nameLoop] at h
   | succ f ih =>
     unfold nameLoop at h
+    simp only at h
     split at h
     · split at h
       · split at h
-        · rename_i hs; simp at h; subst h; exact ornSearch_fresh used _ _ hs
-        · exact ih _ _ h
-      · exact ih _ _ h
+        · rename_i hs; simp at h; subst h
+          exact ⟨ornSearch_fresh used _ _ hs, Or.inr (ornSearch_range used _ _ hs)⟩
+        · exact ih _ _ _ h
+      · exact ih _ _ _ h
     · rename_i hc
       simp at h; subst h
       simp at hc
-      exact hc.2
+      exact ⟨hc.2, Or.inl hc.1⟩
 
 theorem nameUsed_insert (used : Map Bytes Bool) (n m : Bytes) :
     Simple.nameUsed (used.insert n true) m = (decide (n = m) || Simple.nameUsed used m) := by
@@ -485,7 +502,7 @@ theorem nameInv_makeGlyphName (s s1 : Simple) (gid : Nat) (d f n : Bytes) (hi : 
     · simp at h
     · rename_i n1 hl
       simp at h; obtain ⟨rfl, rfl⟩ := h
-      have hfresh := nameLoop_fresh _ _ _ _ _ _ hl
+      have hfresh := (nameLoop_fresh _ _ _ _ _ _ hl).1
       refine ⟨⟨?_, ?_⟩, by simp⟩
       · intro g m hm
         simp only [Map.get_insert] at hm
@@ -536,14 +553,6 @@ theorem glyph_names_injective (base : Nat → Bytes) (w : Int) (as : List EncArg
     (h1 : (runExact base (Simple.init w) as).glyphName.get g1 = some n)
     (h2 : (runExact base (Simple.init w) as).glyphName.get g2 = some n) : g1 = g2 :=
   (nameInv_runExact base as _ (nameInv_init w)).inj g1 g2 n h1 h2
-
-/-- **finding `simple-glyphname-hang`, on the model.**  For a glyph other than glyph 0 whose
-font-supplied name is `.notdef` the naming loop does not end within its fuel: `.notdef` is valid
-and in use, and every `.notdef.altN` starts with a dot, which `names.IsValid` rejects, while being
-shorter than 32 bytes (the Go loop would need 10²⁰ rounds).  The harness shows the same on the
-real code with a two-second watchdog. -/
-theorem notdef_name_loop_exhausts_fuel :
-    (Simple.init 0).makeGlyphName 5 nameNotdef [120] = none := by decide +kernel
 
 -- non-vacuity: a concrete history (three pairs, one glyph used with two texts, one duplicate
 -- call) is reachable, allocates three distinct codes and reads them back
